@@ -153,7 +153,14 @@ def check_train_triple(check, repo: Repo, t: Triple, rule: str = 'R-SIB', adviso
     # (d) gradient evaluated at the current params
     gcalls = _grad_calls(ff_s, oc.grads, [c])
     at_p = [g for g in gcalls if g.args and rec.field_of(g.args[0]) == oc.field_p]
-    pts = [txt(g.args[0]) if g.args else '?' for g in gcalls]
+    def _pt(e):
+      # a local that only names a field of the step state (prev = state['field']) reads as that field
+      if isinstance(e, ast.Name):
+        vals = ff_s.expand(e)
+        if len(vals) == 1 and isinstance(vals[0], ast.Subscript):
+          return txt(vals[0])
+      return txt(e)
+    pts = [_pt(g.args[0]) if g.args else '?' for g in gcalls]
     facts.grad_points += pts
     if not gcalls:
       check.inconclusive(rule + '.grad-point', fi_s, txt(oc.grads), 'cannot find the gradient call feeding the optimizer',
